@@ -30,7 +30,7 @@ Section Spec.
     c09_ok maxif ops (client_trace tp fuel_of t0 qcap maxif ops) = true.
   Definition stmt_c10 := forall tp fuel_of t0 qcap maxif ops, no_wrap ops ->
     c10_ok maxif ops (client_trace tp fuel_of t0 qcap maxif ops) = true.
-  Definition stmt_c11 := forall tp fuel_of t0 qcap maxif ops,
+  Definition stmt_c11 := forall tp fuel_of t0 qcap maxif ops, no_wrap ops ->
     c11_ok maxif ops (client_trace tp fuel_of t0 qcap maxif ops) = true.
   Definition stmt_c14 := forall tp fuel_of t0 qcap maxif ops,
     c14_ok maxif ops (client_trace tp fuel_of t0 qcap maxif ops) = true.
